@@ -65,6 +65,8 @@ class C12(Prop):
     enum_shards = {'quick': 4, 'thorough': 16}
     required_labels = {'quick': ['kind=enum', 'kind=gen', 'nontrivial=True', 'all3=True'], 'thorough': ['kind=enum', 'kind=gen', 'nontrivial=True', 'all3=True']}
 
+    fuzz = {'thorough': {'runs': 3000, 'max_time': 60, 'procs': 4}}
+
     def strategy(self, tier):
         cost = st.one_of(st.sampled_from([0, 1, 1, 8, 27, 64, 125, 512]), st.integers(0, 20))
 
